@@ -368,6 +368,7 @@ func init() {
 		m := s.mutex(a[0].(*Value))
 		s.waitUntil(fr.g, "RWMutex.Lock", func() bool { return !m.locked && m.readers == 0 })
 		m.locked = true
+		fr.g.xlocks++
 		return nil
 	})
 	reg("(*sync.RWMutex).Unlock", func(fr *frame, a []Value) Value {
@@ -376,6 +377,9 @@ func init() {
 			fr.rtPanic("sync: Unlock of unlocked RWMutex")
 		}
 		m.locked = false
+		if fr.g.xlocks > 0 {
+			fr.g.xlocks--
+		}
 		return nil
 	})
 	reg("(*sync.RWMutex).RLock", func(fr *frame, a []Value) Value {
@@ -384,6 +388,7 @@ func init() {
 		m := s.mutex(a[0].(*Value))
 		s.waitUntil(fr.g, "RWMutex.RLock", func() bool { return !m.locked })
 		m.readers++
+		fr.g.rlocks++
 		return nil
 	})
 	reg("(*sync.RWMutex).RUnlock", func(fr *frame, a []Value) Value {
@@ -392,6 +397,9 @@ func init() {
 			fr.rtPanic("sync: RUnlock of unlocked RWMutex")
 		}
 		m.readers--
+		if fr.g.rlocks > 0 {
+			fr.g.rlocks--
+		}
 		return nil
 	})
 	reg("(*sync.WaitGroup).Add", func(fr *frame, a []Value) Value {
@@ -983,6 +991,7 @@ func (w *Worker) muLock(fr *frame, p *Value) {
 	m := s.mutex(p)
 	s.waitUntil(fr.g, "Mutex.Lock", func() bool { return !m.locked })
 	m.locked = true
+	fr.g.xlocks++
 }
 
 func (w *Worker) muUnlock(fr *frame, p *Value) {
@@ -991,6 +1000,9 @@ func (w *Worker) muUnlock(fr *frame, p *Value) {
 		fr.rtPanic("sync: unlock of unlocked mutex")
 	}
 	m.locked = false
+	if fr.g.xlocks > 0 {
+		fr.g.xlocks--
+	}
 }
 
 // ---------------------------------------------------------------- time helpers
